@@ -328,13 +328,40 @@ func e25LoopInfo(l *core.Loop) *e25Loop {
 		if arg == nil {
 			return nil
 		}
-		if ai, isInstr := arg.(ssa.Instruction); isInstr && l.Blocks[ai.Block()] {
+		if ai, isInstr := arg.(ssa.Instruction); isInstr && l.Blocks[ai.Block()] && !e25OnceAssignedBefore(arg, l) {
 			return nil
 		}
 	}
 	info.ind, info.j0, info.u, info.a, info.bound = p, j0, u, a, bound
 	info.ranged = e19LenArg(bound)
 	return info
+}
+
+// e25OnceAssignedBefore: v, read inside loop l, is the load of a local variable that
+// lives in a cell only because closures capture it, and that is assigned exactly once,
+// in the function of the loop, before the loop is entered (the store dominates the
+// header and is outside the loop) — neither the loop nor a closure it may call can
+// change it, so `i < len(v)` re-evaluated by a three-clause loop tests the same length
+// as `range v` does.
+func e25OnceAssignedBefore(v ssa.Value, l *core.Loop) bool {
+	ld, ok := v.(*ssa.UnOp)
+	if !ok || ld.Op != token.MUL {
+		return false
+	}
+	cell, ok := ld.X.(*ssa.Alloc)
+	if !ok || cell.Parent() != l.Header.Parent() {
+		return false
+	}
+	vals, complete := core.StoresTo(cell)
+	if !complete || len(vals) != 1 {
+		return false
+	}
+	for _, r := range *cell.Referrers() {
+		if st, isSt := r.(*ssa.Store); isSt && st.Addr == ssa.Value(cell) {
+			return !l.Blocks[st.Block()] && st.Block().Dominates(l.Header)
+		}
+	}
+	return false // the one store is in a closure
 }
 
 // e25Fn: per-function loop structure (memoised for the run of the rule).
